@@ -64,7 +64,7 @@ NESTED = {
 
 OPS = ['construct', 'parse', 'deepcopy', 'new_version', 'revoke', 'marking', 'bundle', 'factory', 'store_add', 'store_read',
        'save_load', 'setattr', 'register', 'serialize', 'remove_custom', 'dedup', 'env', 'bad_construct', 'filters', 'marking_utils',
-       'composite', 'ext_objects']
+       'composite', 'ext_objects', 'navigate']
 
 
 class C13(Profile):
@@ -73,7 +73,7 @@ class C13(Profile):
     owns_registries = True
     tiers = {'quick': 2400, 'thorough': 200000}
     wall_cap = {'quick': 1200, 'thorough': 6 * 3600}
-    probes = ['arg_nested_extension_dict', 'arg_observed_data_objects', 'failing_call_checked', 'fault_interrupted_call_checked',
+    probes = ['new_version_with_custom_properties', 'navigation_with_caller_filters', 'arg_nested_extension_dict', 'arg_observed_data_objects', 'failing_call_checked', 'fault_interrupted_call_checked',
               'object_shared_by_bundle_and_store', 'deepcopy_disjoint', 'assignment_refused', 'stored_dict_by_reference',
               'factory_list_default', 'registration_args_checked', 'marking_on_pooled_dict', 'new_version_of_stored_object',
               'extensions_dict_of_objects', 'argument_too_deep_to_copy']
@@ -106,6 +106,8 @@ class C13(Profile):
                     op['type'] = rng.choice(C.versioned_types(op['ver']))
             if kind in ('store_add', 'save_load', 'store_read') and faults and rng.random() < 0.5:
                 op['fault'] = SW.gen_fault(rng, SW.WRITE_FAULTS + SW.READ_FAULTS)
+            if kind == 'navigate' and faults and rng.random() < 0.7:
+                op['fault'] = SW.gen_fault(rng, SW.READ_FAULTS)
             ops.append(op)
         return {'config': {'m_allow_custom': True, 'fs_allow_custom': True, 'faults': faults}, 'pool': [], 'ops': ops}
 
@@ -337,6 +339,23 @@ class C13(Profile):
             changes = {'id': 'nope', 'labels': ['a']} if op['c'] % 2 else {'modified': '2000-01-01T00:00:00Z', 'labels': ['a']}
         self.keep(changes)
         self.world.clock.set(1600000000000000 + op['n'] * 1000)
+        if op['c'] % 4 == 1 and not op.get('fail'):
+            # part of the request travels in a caller-held custom_properties dictionary: names the object already carries
+            # (custom and specification-defined) next to new ones; the same dictionary is used again for the next request
+            cp = getattr(self, '_cp', None)
+            if cp is None or op['c'] % 8 == 1:
+                have = [k for k in U.to_json(v) if k.startswith('x_')][:1]
+                cp = dict({k: 'again' for k in have}, x_rating='high', x_tags=['c', 'd'])
+                if op['c'] % 3 == 0:
+                    cp['labels'] = ['from-custom-properties']
+                self._cp = cp
+                self.keep(cp)
+            self.world.probe('new_version_with_custom_properties')
+            first = self.monitored('new_version', s.versioning.new_version, v, custom_properties=cp, allow_custom=True)
+            if first.ok:
+                self.keep(first.value)
+                self.monitored('new_version', s.versioning.new_version, first.value, custom_properties=cp, allow_custom=True, **changes)
+            return
         out = self.monitored('new_version', s.versioning.new_version, v, **changes)
         if out.ok:
             self.keep(out.value)
@@ -708,6 +727,55 @@ class C13(Profile):
         self.sw.disk.end_op()
         if len(cds.filters) != 1 or len(flt) != 1 or len(q) != 1:
             raise Violation('arguments-unchanged', 'C13.composite-filter-set-grew', dict(attached=len(cds.filters), query=len(q)))
+
+    def op_navigate(self, op):
+        """relationships / related_to / creator_of with caller-held filter lists (and FilterSet objects as queries), also when
+        a look-up half-way through fails with an I/O error: the caller's containers come back as they went in."""
+        s = self.s
+        sw = self.sw
+        objs = [v for v in self.pool if self.is_obj(v) and 'id' in v and v.get('type') not in ('relationship', 'sighting', 'bundle')]
+        if len(objs) < 2:
+            return
+        a, b = objs[op['a'] % len(objs)], objs[op['b'] % len(objs)]
+        S = self.store_target(op)
+        rel = call(lambda: s.v21.Relationship(a['id'], 'related-to', b['id']))
+        if not rel.ok:
+            return
+        sw.disk.begin_op(op.get('ls_key', 0))
+        for x in (a, b, rel.value):
+            call(S.add, x)
+        sw.disk.end_op()
+        flt = [s.Filter('type', '!=', 'x-nothing'), s.Filter('id', '!=', C.IDENT2)]
+        self.keep(flt)
+        from stix2.datastore.filters import FilterSet
+        fs = FilterSet([s.Filter('type', '!=', 'x-none')])
+        self.keep(fs)
+        which = op['c'] % 5
+        sw.disk.begin_op(op.get('ls_key', 0), op.get('fault') if S is sw.F else None)
+        if which == 0:
+            self.monitored('related_to', S.related_to, a, filters=flt)
+        elif which == 1:
+            self.monitored('related_to', S.related_to, a, relationship_type='related-to', source_only=True, filters=flt)
+        elif which == 2:
+            self.monitored('relationships', S.relationships, a, relationship_type='related-to')
+            self.monitored('creator_of', S.creator_of, a)
+        elif which == 3:
+            # the query itself is a FilterSet object the caller goes on using, against a source that has filters of its own
+            attach = s.Filter('type', '!=', 'x-attached')
+            src = S.source
+            call(src.filters.add, attach)
+            self.monitored('store_query', src.query, fs)
+            self.monitored('store_query', src.query, fs)
+            call(src.filters.remove, attach)
+        else:
+            cds = s.CompositeDataSource()
+            call(cds.add_data_sources, [sw.M.source, sw.F.source])
+            self.monitored('related_to', cds.related_to, a, filters=flt)
+        if sw.disk.end_op():
+            self.world.probe('fault_interrupted_call_checked')
+        if len(flt) != 2 or len(fs) != 1:
+            raise Violation('arguments-unchanged', 'C13.caller-filters-changed/navigate', dict(filters=len(flt), filterset=len(fs)))
+        self.world.probe('navigation_with_caller_filters')
 
     def op_env(self, op):
         s = self.s
